@@ -15,3 +15,11 @@ func VerifC16Entry(expired bool) *CacheEntry {
 	}
 	return e
 }
+
+// VerifC16EntryCut builds an entry whose TTL is still running but whose
+// delegation-cut deadline has lapsed (the other way an entry is expired).
+func VerifC16EntryCut() *CacheEntry {
+	e := &CacheEntry{stored: time.Now(), ttl: time.Hour}
+	e.cutUntil = e.stored.Add(-time.Minute)
+	return e
+}
